@@ -434,6 +434,123 @@ pub mod sync {
 
 // endregion: std::sync
 
+// region: std::sync::mpsc (blocking operations hand the baton back while they wait)
+
+pub mod mpsc {
+    use super::try_world;
+    pub use ::std::sync::mpsc::{RecvError, SendError, TryRecvError, TrySendError};
+
+    fn wait() {
+        if let Some(w) = try_world() {
+            w.yield_point("channel_wait");
+        } else {
+            ::std::thread::yield_now();
+        }
+    }
+
+    pub struct Sender<T>(::std::sync::mpsc::Sender<T>);
+    pub struct SyncSender<T>(::std::sync::mpsc::SyncSender<T>);
+    pub struct Receiver<T>(::std::sync::mpsc::Receiver<T>);
+
+    pub fn channel<T>() -> (Sender<T>, Receiver<T>) {
+        let (tx, rx) = ::std::sync::mpsc::channel();
+        (Sender(tx), Receiver(rx))
+    }
+    pub fn sync_channel<T>(bound: usize) -> (SyncSender<T>, Receiver<T>) {
+        let (tx, rx) = ::std::sync::mpsc::sync_channel(bound);
+        (SyncSender(tx), Receiver(rx))
+    }
+
+    impl<T> Clone for Sender<T> {
+        fn clone(&self) -> Self {
+            Sender(self.0.clone())
+        }
+    }
+    impl<T> Clone for SyncSender<T> {
+        fn clone(&self) -> Self {
+            SyncSender(self.0.clone())
+        }
+    }
+    impl<T> Sender<T> {
+        pub fn send(&self, t: T) -> Result<(), SendError<T>> {
+            if let Some(w) = try_world() {
+                w.yield_point("channel_send");
+            }
+            self.0.send(t)
+        }
+    }
+    impl<T> SyncSender<T> {
+        /// Blocks while the channel is full: here, by handing the baton to other workers.
+        pub fn send(&self, t: T) -> Result<(), SendError<T>> {
+            let mut item = t;
+            loop {
+                match self.0.try_send(item) {
+                    Ok(()) => return Ok(()),
+                    Err(TrySendError::Disconnected(t)) => return Err(SendError(t)),
+                    Err(TrySendError::Full(t)) => {
+                        item = t;
+                        wait();
+                    }
+                }
+            }
+        }
+        pub fn try_send(&self, t: T) -> Result<(), TrySendError<T>> {
+            self.0.try_send(t)
+        }
+    }
+    impl<T> Receiver<T> {
+        /// Blocks while the channel is empty and a sender is alive.
+        pub fn recv(&self) -> Result<T, RecvError> {
+            loop {
+                match self.0.try_recv() {
+                    Ok(t) => return Ok(t),
+                    Err(TryRecvError::Disconnected) => return Err(RecvError),
+                    Err(TryRecvError::Empty) => wait(),
+                }
+            }
+        }
+        pub fn try_recv(&self) -> Result<T, TryRecvError> {
+            self.0.try_recv()
+        }
+        pub fn iter(&self) -> Iter<'_, T> {
+            Iter(self)
+        }
+        pub fn try_iter(&self) -> ::std::sync::mpsc::TryIter<'_, T> {
+            self.0.try_iter()
+        }
+    }
+    pub struct Iter<'a, T>(&'a Receiver<T>);
+    impl<T> Iterator for Iter<'_, T> {
+        type Item = T;
+        fn next(&mut self) -> Option<T> {
+            self.0.recv().ok()
+        }
+    }
+    pub struct IntoIter<T>(Receiver<T>);
+    impl<T> Iterator for IntoIter<T> {
+        type Item = T;
+        fn next(&mut self) -> Option<T> {
+            self.0.recv().ok()
+        }
+    }
+    impl<T> IntoIterator for Receiver<T> {
+        type Item = T;
+        type IntoIter = IntoIter<T>;
+        fn into_iter(self) -> IntoIter<T> {
+            IntoIter(self)
+        }
+    }
+    impl<'a, T> IntoIterator for &'a Receiver<T> {
+        type Item = T;
+        type IntoIter = Iter<'a, T>;
+        fn into_iter(self) -> Iter<'a, T> {
+            self.iter()
+        }
+    }
+}
+
+// endregion: std::sync::mpsc
+
 // region: std::sync::atomic (every access is a point at which the scheduler may switch)
 
 pub mod atomic {
@@ -1061,11 +1178,44 @@ pub mod shadow {
             pub mod atomic {
                 pub use crate::verif_seam::atomic::*;
             }
+            pub mod mpsc {
+                pub use crate::verif_seam::mpsc::*;
+            }
         }
     }
     pub mod rayon {
         pub fn current_num_threads() -> usize {
             crate::verif_seam::world().pool_threads().max(1)
+        }
+        /// `rayon::join`: `b` may run on another pool thread (if one steals it) or on the caller
+        /// after `a`; the world decides, as for any two-item fan-out.
+        pub fn join<A, B, RA, RB>(oper_a: A, oper_b: B) -> (RA, RB)
+        where
+            A: FnOnce() -> RA + Send,
+            B: FnOnce() -> RB + Send,
+            RA: Send,
+            RB: Send,
+        {
+            use ::std::sync::Mutex;
+            let a = Mutex::new(Some(oper_a));
+            let b = Mutex::new(Some(oper_b));
+            let ra: Mutex<Option<RA>> = Mutex::new(None);
+            let rb: Mutex<Option<RB>> = Mutex::new(None);
+            crate::verif_seam::world().par_execute(2, &|range| {
+                for i in range {
+                    if i == 0 {
+                        let f = a.lock().unwrap().take().expect("join: a ran twice");
+                        *ra.lock().unwrap() = Some(f());
+                    } else {
+                        let f = b.lock().unwrap().take().expect("join: b ran twice");
+                        *rb.lock().unwrap() = Some(f());
+                    }
+                }
+            });
+            (
+                ra.into_inner().unwrap().expect("join: a did not run"),
+                rb.into_inner().unwrap().expect("join: b did not run"),
+            )
         }
         pub mod prelude {
             pub use crate::verif_seam::par::{
